@@ -129,12 +129,19 @@ SeedOutputs(P, w) ==
               : t \in {t \in DOMAIN P.tokens : P.tokens[t].from = w}}
 RestoreStep(P, e, Q) ==
   IF e.r.ok
-  THEN LET \* fault-free: what the wallet and its outstanding tokens held; after a wallet crash the wallet's own records are
-           \* no guide, and the mint-side truth is used: the value of the seed's signed outputs not spent at their mint
-           want == IF e.a.aftercrash THEN e.a.seedlive ELSE SumOver(SeedOutputs(P, e.a.w), LAMBDA p : p.amt)
+  THEN LET \* the mint-side truth: the value of the seed's signed outputs that are not spent at their mint.  The restore's own
+           \* state checks make the mint look up in-flight payments, so what is live can change while it runs: both the value
+           \* before and the value after are acceptable (each output is looked at once, somewhere in between).
+           \* Fault-free, what the wallet and its outstanding tokens held before is a third, independent witness.
+           held == SumOver(SeedOutputs(P, e.a.w), LAMBDA p : p.amt)
            got == Q.wallets[e.a.w].bal + Q.wallets[e.a.w].pend
+           lo == IF e.a.seedlivepost < e.a.seedlive THEN e.a.seedlivepost ELSE e.a.seedlive
+           hi == IF e.a.seedlivepost < e.a.seedlive THEN e.a.seedlive ELSE e.a.seedlivepost
+           okMint == lo <= got /\ got <= hi
+           okHeld == ~e.a.aftercrash /\ got = held
            sfx == IF e.a.aftercrash THEN "-after-crash" ELSE ""
-       IN (IF got = want THEN {} ELSE {<<"C19", (IF got < want THEN "restore-incomplete" ELSE "restore-exceeds-seed-outputs") \o sfx>>})
+       IN IF okMint \/ okHeld THEN {}
+          ELSE {<<"C19", (IF got < lo THEN "restore-incomplete" ELSE "restore-exceeds-seed-outputs") \o sfx>>}
   ELSE {<<"C19", "restore-failed">>}
 
 \* C17, no value lost: what is unspent at a mint and held by nobody.  Reported at the step that loses it (with what kind of
@@ -143,6 +150,7 @@ Lost(P, m) == IF m \in M(P) THEN P.mints[m].balance - P.mints[m].retired - LiveV
 LossContext(e) ==
   IF e.ev = "receive" /\ ~e.r.ok /\ ~e.r.skipped
   THEN "/failed-receive/" \o e.a.lockclass \o (IF e.a.swap /\ e.a.tokmint # e.a.default THEN "/swap-to-trusted" ELSE "")
+       \o (IF e.a.inlist THEN "" ELSE "/mint-not-in-list")
   ELSE ""
 ConservationTags(P, e, Q) ==
   UNION {IF Lost(Q, m) > 0 /\ Lost(Q, m) > Lost(P, m) THEN {<<"C17", "value-lost" \o LossContext(e) \o ":" \o m>>} ELSE {} : m \in M(Q)}
